@@ -238,7 +238,7 @@ def Variant.current : Variant := ⟨false⟩
 def Variant.fixed : Variant := ⟨true⟩
 
 inductive Err where
-  | emptyVector | invalidTopK | dimMismatch | notFound | collExists | collNotFound
+  | emptyVector | invalidTopK | dimMismatch | notFound | collExists | collNotFound | unsupported
   deriving DecidableEq
 
 /-- state-changing operations -/
@@ -271,6 +271,12 @@ inductive Resp where
   | okRepr (r : Stored Int)
   | okN (n : Nat)
   | err (e : Err)
+
+/-- the collection's configured metric, cosine when there is no config (lib.rs:1614-1616) -/
+def cfgMetric (st : State) (c : String) : Metric :=
+  match alGet st.configs c with
+  | some cfg => cfg.metric
+  | none => .cosine
 
 def sameDims (items : Items) : Bool :=
   match items with
@@ -340,8 +346,11 @@ def step (v : Variant) (st : State) : Op → State × Resp
       (setColl st c ⟨alDel (collOf st c).items key, none⟩, .ok)
     else (st, .err .notFound)
   | .cbuild c =>
+    -- harness-level operation (there is no engine API that builds a collection index): only
+    -- issued for collections whose metric is cosine, the metric of a default `HNSWConfig`
     let x := collOf st c
-    if sameDims x.items then
+    if cfgMetric st c != .cosine then (st, .err .unsupported)
+    else if sameDims x.items then
       (setColl st c ⟨x.items, some (snapOf x.items)⟩, .okN x.items.length)
     else (st, .err .dimMismatch)
 
@@ -361,9 +370,13 @@ structure Cand where
 def candBetter (m : Metric) (a b : Cand) : Bool := better m a.score b.score
 
 /-- brute-force candidate list: stored vectors of the query's dimension (lib.rs:2126, 1665) -/
-def candidates (items : Items) (m : Metric) (q : List Int) (f : Filter) : List Cand :=
+def passes (md : List (String × Int)) : Option Filter → Bool
+  | none => true
+  | some f => evalFilter md f
+
+def candidates (items : Items) (m : Metric) (q : List Int) (f : Option Filter) : List Cand :=
   items.filterMap fun e =>
-    if (vecOf e.2).length = q.length then some ⟨e.1, score m q (vecOf e.2), evalFilter e.2.md f⟩
+    if (vecOf e.2).length = q.length then some ⟨e.1, score m q (vecOf e.2), passes e.2.md f⟩
     else none
 
 def rank (m : Metric) (cs : List Cand) : List Cand := sortBy (candBetter m) cs
@@ -379,6 +392,11 @@ inductive SearchOut where
       `snap`; `rs` = every indexed vector of the query's dimension with its true cosine score
       (the index is built with the default `HNSWDistanceMetric::Cosine`), best first -/
   | viaIndex (snap : Snap) (rs : List Cand) (cut k : Nat)
+  /-- the cached index was consulted with a query of another dimension than the indexed
+      vectors: `index.search` is handed the query unchecked (lib.rs:1981, 1627) and either
+      panics (shorter query) or scores a prefix of the query against vectors of the wrong
+      dimension (longer query).  The model leaves the outcome unspecified. -/
+  | indexDimMismatch (snap : Snap)
 
 def SearchOut.answer : SearchOut → List Cand
   | .ranked _ rs cut k => ((rs.take cut).filter (·.pass)).take k
@@ -386,20 +404,23 @@ def SearchOut.answer : SearchOut → List Cand
 
 /-- candidates of an index snapshot, with the filter evaluated on the *current* store
     (`evaluate_filter_for_key`: false for a key that no longer exists) -/
-def snapCands (snap : Snap) (cur : Items) (q : List Int) (f : Filter) : List Cand :=
+def snapCands (snap : Snap) (cur : Items) (q : List Int) (f : Option Filter) : List Cand :=
   snap.filterMap fun e =>
     if e.2.length = q.length then
-      some ⟨e.1, score .cosine q e.2, match alGet cur e.1 with
-        | some it => evalFilter it.md f
-        | none => false⟩
+      some ⟨e.1, score .cosine q e.2, match f with
+        | none => true
+        | some f => (match alGet cur e.1 with
+            | some it => evalFilter it.md f
+            | none => false)⟩
     else none
 
 /-- the part shared by `search_similar` (lib.rs:1976-2036) and `search_in_collection`
     (lib.rs:1622-1688) after the argument checks -/
-def searchCore (x : Coll) (m : Metric) (q : List Int) (f : Filter) (cut k : Nat) : SearchOut :=
+def searchCore (x : Coll) (m : Metric) (q : List Int) (f : Option Filter) (cut k : Nat) : SearchOut :=
   match x.cache with
   | some s =>
     if s.isEmpty then .ranked m (rank m (candidates x.items m q f)) cut k
+    else if s.any (fun e => e.2.length != q.length) then .indexDimMismatch s
     else .viaIndex s (rank .cosine (snapCands s x.items q f)) cut k
   | none => .ranked m (rank m (candidates x.items m q f)) cut k
 
@@ -408,14 +429,14 @@ def searchDefault (st : State) (q : List Int) (k : Nat) : SearchOut :=
   if q.isEmpty then .err .emptyVector
   else if k = 0 then .err .invalidTopK
   else if normSq q = 0 then .zeroQuery
-  else searchCore st.dflt .cosine q .tt k k
+  else searchCore st.dflt .cosine q none k k
 
 /-- `search_similar_with_metric` (never consults the cache; lib.rs:2049-2101) -/
 def searchMetric (st : State) (m : Metric) (q : List Int) (k : Nat) : SearchOut :=
   if q.isEmpty then .err .emptyVector
   else if k = 0 then .err .invalidTopK
   else if normSq q = 0 && m != .euclid then .zeroQuery
-  else .ranked m (rank m (candidates st.dflt.items m q .tt)) k k
+  else .ranked m (rank m (candidates st.dflt.items m q none)) k k
 
 inductive Strategy where
   | auto | pre | post
@@ -448,16 +469,11 @@ def searchFiltered (st : State) (q : List Int) (k : Nat) (f : Filter) (strat : S
     | .post =>
       -- `search_similar(query, oversample_k)` then filter, then `.take(top_k)`
       if normSq q = 0 then .zeroQuery
-      else searchCore st.dflt .cosine q f (oversampleK k os) k
+      else searchCore st.dflt .cosine q (some f) (oversampleK k os) k
     | _ =>
       -- pre-filter: cosine over the matching keys only
       if normSq q = 0 then .zeroQuery
-      else .ranked .cosine (rank .cosine ((candidates st.dflt.items .cosine q f).filter (·.pass))) k k
-
-def cfgMetric (st : State) (c : String) : Metric :=
-  match alGet st.configs c with
-  | some cfg => cfg.metric
-  | none => .cosine
+      else .ranked .cosine (rank .cosine ((candidates st.dflt.items .cosine q (some f)).filter (·.pass))) k k
 
 def cfgDimOk (st : State) (c : String) (q : List Int) : Bool :=
   match alGet st.configs c with
@@ -472,7 +488,7 @@ def searchColl (st : State) (c : String) (q : List Int) (k : Nat) : SearchOut :=
   else if k = 0 then .err .invalidTopK
   else if !cfgDimOk st c q then .err .dimMismatch
   else if normSq q = 0 && cfgMetric st c == .cosine then .zeroQuery
-  else searchCore (collOf st c) (cfgMetric st c) q .tt k k
+  else searchCore (collOf st c) (cfgMetric st c) q none k k
 
 /-- `search_filtered_in_collection` (lib.rs:1698-1829).  Auto has no special case for `True`;
     the pre-filter branch scores with cosine whatever the collection's metric is; the
@@ -490,8 +506,8 @@ def searchCollFiltered (st : State) (c : String) (q : List Int) (k : Nat) (f : F
                  else if sampleSaysPre x.items f then Strategy.pre else Strategy.post
       | other => other
     match s with
-    | .post => searchCore x (cfgMetric st c) q f (oversampleK k os) k
-    | _ => .ranked .cosine (rank .cosine ((candidates x.items .cosine q f).filter (·.pass))) k k
+    | .post => searchCore x (cfgMetric st c) q (some f) (oversampleK k os) k
+    | _ => .ranked .cosine (rank .cosine ((candidates x.items .cosine q (some f)).filter (·.pass))) k k
 
 /-- The engine's post-processing of what `index.search(query, k)` returned (lib.rs:1981-1998):
     node ids are mapped through the key list (`filter_map(mapping.get(idx))`), sorted by score,
